@@ -2,7 +2,7 @@
 from __future__ import annotations
 
 import ast
-from typing import List, Optional, Tuple
+from typing import List, Optional, Set, Tuple
 
 from vlib import flow, match, source
 from vlib.cfg import CFG, Node, own_calls
@@ -32,6 +32,11 @@ def run(ctx) -> None:
         ("C13.R9-success-of-this-pass", "the 'executed successfully' test of the decision reads the task generated in this pass: a local "
                                         "whose definitions are None or the result of self.taskGenerator(..), never self.process (which still "
                                         "holds the previous pass's task when the generator raised), and never dereferenced while it may be None"),
+        ("C13.R10-cutoff-is-the-last-launch", "the date handed to the new-producer-output test is the launch time of the previous execution (the "
+                                              "attribute that receives, before the task is generated, a clock reading taken in this pass), "
+                                              "or something earlier (min): with a later cutoff - e.g. the time the previous task finished - "
+                                              "output written while that task ran is never seen as new, and if it is the final output the "
+                                              "observer stops without an execution that began after it"),
         ("C13.R2-progress", "every pass through the decision block calls kill() or decrements repeatRetries; the ==0 test precedes "
                             "the decrement; repeatRetries has no other writer; default is 3"),
         ("C13.R3-consume-before-execute", "taskGenerator is called only when self.consume and (new output or no producers); _consume is "
@@ -61,6 +66,49 @@ def run(ctx) -> None:
     gens = match.nodes_calling(cfg, lambda c: call_name(c) == "self.taskGenerator")
     ctx.floor("C13.R1-snapshot-before-launch", len(kills), 1, "self.kill() sites in EngineTaskController")
     ctx.require(bool(gens), "anchor missing: self.taskGenerator call in EngineTaskController")
+
+    # ---------------- R10: the cutoff of the new-output test ---------------------------------------------
+    def clock(e: ast.AST) -> bool:
+        return isinstance(e, ast.Call) and (call_name(e) or "").endswith("datetime.now") and not e.args
+    clock_locals = set(match.locals_where(etc, clock))
+    # launch-time carriers: attributes / items assigned, on the way to the task generator, a clock local of this pass (or another carrier)
+    carriers: Set[str] = set()
+    gen_ids = {g.id for g in gens}
+    changed = True
+    while changed:
+        changed = False
+        for n in cfg.nodes:
+            if n.kind == "stmt" and isinstance(n.ast, ast.Assign) and len(n.ast.targets) == 1 and not isinstance(n.ast.targets[0], ast.Name):
+                v = n.ast.value
+                if (isinstance(v, ast.Name) and v.id in clock_locals) or source.src(v) in carriers:
+                    # the store is followed by the launch on every normal path (it records a launch, not e.g. a finish time)
+                    r = cfg.reach([m for (m, l2) in n.succ if l2 is None], blocked=gens, ignore_labels=("exc",))
+                    if cfg.exit.id not in r and source.src(n.ast.targets[0]) not in carriers:
+                        carriers.add(source.src(n.ast.targets[0]))
+                        changed = True
+    since = [c for c in source.calls_in(etc) if last_attr(c) == "producersHaveOutputSinceDate"]
+    ctx.floor("C13.R10-cutoff-is-the-last-launch", len(since), 1, "new-producer-output tests in EngineTaskController")
+    ctx.require(bool(carriers), "anchor missing: the attribute that records the launch time before self.taskGenerator")
+
+    def cutoff_ok(e: ast.AST, depth: int = 0) -> bool:
+        if source.src(e) in carriers:
+            return True
+        if isinstance(e, ast.Call) and call_name(e) == "min" and e.args:
+            return any(cutoff_ok(a, depth + 1) for a in e.args)
+        if isinstance(e, ast.Name) and depth < 3:
+            vals = match.assigned_value(etc, e.id)
+            return bool(vals) and all(cutoff_ok(v, depth + 1) for v in vals)
+        return False
+    for c in since:
+        ok = bool(c.args) and cutoff_ok(c.args[0])
+        ctx.ob("C13.R10-cutoff-is-the-last-launch", c, ok,
+               "new output is looked for since the launch of the previous execution (%s)" % short(c.args[0], 40) if ok else
+               "the new-output test uses the cutoff %s, which is not the recorded launch time of the previous execution (%s) nor a minimum "
+               "including it: output the producers write between that launch and the cutoff is never reported as new; when it is their "
+               "final output the passes after the producers-finished notification do not execute, use up the retries, and the engine "
+               "stops having only run a task that began before the final output existed" % (
+                   short(c.args[0], 60) if c.args else "<none>", ", ".join(sorted(carriers))),
+               construct="producersHaveOutputSinceDate(<cutoff>) <- launch time")
 
     # snapshot variables: locals assigned exactly `self._producers_are_finished`
     snaps = {}
@@ -285,6 +333,17 @@ def run(ctx) -> None:
                "repeatRetries can be decremented without testing for 0 first (it can go negative and never stop)",
                construct=short(d.ast) + " <- repeatRetries != 0")
     for (zn, _) in zero_tests:
+        # the option is not range-checked (any int passes validation): 'no retries left' has to hold for negative values too
+        op = match.compare_parts(zn.ast)[1]
+        init_vals = [v for f in eng.functions.values() for d in ast.walk(f) if isinstance(d, ast.Dict)
+                     for (k, v) in zip(d.keys, d.values) if isinstance(k, ast.Constant) and k.value == "repeatRetries"]
+        clamped = bool(init_vals) and all(isinstance(match.resolve_local(eng.func("RepeatingEngine.__init__"), v), ast.Call)
+                                          and call_name(match.resolve_local(eng.func("RepeatingEngine.__init__"), v)) in ("max", "abs") for v in init_vals)
+        ok = isinstance(op, ast.LtE) or clamped
+        ctx.ob("C13.R2-progress", zn.ast, ok, "'no retries left' holds for every non-positive counter" if ok else
+               "'no retries left' is tested with '== 0' while the configured repeatRetries is not range-checked: with 'repeatRetries: -1' the "
+               "counter starts below zero, the test never holds, and an observer whose task keeps failing after its producers finished "
+               "never stops (the counter only moves away from 0)", construct="repeatRetries <no retries left> covers negatives")
         succ = [m for (m, l2) in zn.succ if l2 == "T"]
         r = cfg.reach(succ, blocked=kills, ignore_labels=("exc",))
         ok = cfg.exit.id not in r
